@@ -6,6 +6,7 @@ import (
 	"math/big"
 	"time"
 
+	sigtypes "github.com/chain4energy/c4e-chain/x/cfesignature/types"
 	vtypes "github.com/chain4energy/c4e-chain/x/cfevesting/types"
 	sdk "github.com/cosmos/cosmos-sdk/types"
 	authvesting "github.com/cosmos/cosmos-sdk/x/auth/vesting/types"
@@ -456,6 +457,9 @@ func (w *vestingWorld) txGens(weights map[string]int) []TxGen {
 	add("split", w.genSplit)
 	add("move", w.genMove)
 	add("delegate", w.genDelegate)
+	if weights["sigCreateAccount"] > 0 {
+		add("sigCreateAccount", w.genSigCreateAccount)
+	}
 	return gens
 }
 
@@ -494,4 +498,43 @@ func (w *vestingWorld) cadence(r *kernel.Run, rng *kernel.Rng) int64 {
 		return int64(time.Duration(rng.Range(1, 3000)) * time.Second)
 	}
 	return int64(5*time.Second) + rng.I64n(int64(2*time.Second))
+}
+
+// genSigCreateAccount: the signature module's account creation aimed at addresses in every state
+// (absent, base account without/with key, vesting account, module account), from any signer.
+func (w *vestingWorld) genSigCreateAccount(r *kernel.Run, rng *kernel.Rng) *kernel.Tx {
+	creator := w.Clients[rng.Intn(len(w.Clients))]
+	var target string
+	switch rng.Intn(6) {
+	case 0:
+		target = kernel.ActorBech(w.fresh())
+	case 1:
+		target = kernel.ActorBech(w.Clients[rng.Intn(len(w.Clients))])
+	case 2:
+		if len(w.VestActors) > 0 {
+			target = kernel.ActorBech(w.VestActors[rng.Intn(len(w.VestActors))])
+		} else {
+			target = kernel.ActorBech(creator)
+		}
+	case 3:
+		target = kernel.ModuleAddr(vtypes.ModuleName).String()
+	case 4:
+		target = "not-an-address"
+	default:
+		target = kernel.ActorBech(w.Clients[0])
+	}
+	keyOwner := creator
+	if rng.Bool() {
+		keyOwner = "attacker-key"
+	}
+	pkJSON, err := kernel.Enc().Marshaler.MarshalInterfaceJSON(kernel.ActorKey(keyOwner).PubKey())
+	if err != nil {
+		return nil
+	}
+	pk := string(pkJSON)
+	if rng.Intn(10) == 0 {
+		pk = "{not json"
+	}
+	msg := &sigtypes.MsgCreateAccount{Creator: kernel.ActorBech(creator), AccAddressString: target, PubKeyString: pk}
+	return msgTx(creator, msg, "sig")
 }
